@@ -406,7 +406,7 @@ def relate_inside_send_problems(prog: Program) -> Tuple[int, List[Tuple[FuncInfo
         for x in walk_own(f.node):
             if not isinstance(x, ast.Call) or not isinstance(x.func, ast.Attribute):
                 continue
-            if x.func.attr == '_send' and dotted(x.func.value) in ('self', 'self._client'):
+            if x.func.attr == '_send' and (_canon_d(f, x.func.value) or dotted(x.func.value)) in ('self', 'self._client'):
                 sites += 1
                 v = None
                 for k in x.keywords:
